@@ -1,3 +1,5 @@
+#[cfg(mos_verif_threads)]
+use mos_simrt::std_shim as std;
 use crate::codegen::{CodegenContext, Segment};
 use crate::errors::{map_io_error, CoreResult};
 use crate::parser::Identifier;
